@@ -155,6 +155,27 @@ class Data(Payload):
             conj.append(eq(l1, l2))
         return b_and(*conj)
 
+    def canon(self, ex):
+        """Merge adjacent segments of one class whose ranges are provably contiguous under the path condition."""
+        out = []
+        for c, o, l in self.segs:
+            if is_sym(l) and ex.check_holds(eq(l, 0))[0]:
+                continue
+            if out and out[-1][0] == c and c != 'zero':
+                pc, po, pl = out[-1]
+                if ex.check_holds(eq(po + pl, o))[0]:
+                    nl = pl + l
+                    out[-1] = (pc, po, z3.simplify(nl) if is_sym(nl) else nl)
+                    continue
+            out.append((c, o, l))
+        d = Data([])
+        d.segs = out
+        t = 0
+        for _c, _o, l in out:
+            t = t + l
+        d._len = t
+        return d
+
     def slice(self, ex, start, end):
         """Sub-range [start, end) as segments; start/end may be symbolic but must resolve by forking."""
         out = []
@@ -483,7 +504,7 @@ def install(ex, store):
     I = ex.intercepts
 
     def add(pattern, fn):
-        I.append((re.compile(pattern + r'$'), fn))
+        I.append((re.compile('(?:' + pattern + r')$'), fn))
 
     # ---------------- Transport
     def t_async(op):
@@ -566,7 +587,7 @@ def install(ex, store):
 
     def compress(ex, c, a):
         p = as_payload(ex, a[1])
-        ln = ex.fresh_int('complen', 1, None)
+        ln = ex.fresh_int('complen', 1, 1 << 40)
         return ok(Compressed(p, ln))
     add(r'(?:compress::snappy::)?Compressor::compress', compress)
     add(r'(?:compress::snappy::)?Compressor::new|(?:compress::snappy::)?Decompressor::new|<(?:compress::snappy::)?Decompressor as Default>::default',
@@ -584,7 +605,7 @@ def install(ex, store):
         m = re.search(r'to_(?:vec|string)::<(.*)>$', c)
         ty = m.group(1) if m else '?'
         v = clone_value(ex, deref(a[0]))
-        doc = JsonDoc(v, P.strip_generics(ty) if not ty.startswith('Vec') else ty, ex.fresh_int('jsonlen', 2, None))
+        doc = JsonDoc(v, P.strip_generics(ty) if not ty.startswith('Vec') else ty, ex.fresh_int('jsonlen', 2, 1 << 40))
         return ok(doc)
     add(r'(?:serde_json::)?to_vec::<.*>|(?:serde_json::)?to_string::<.*>', to_json)
 
